@@ -1278,7 +1278,63 @@ def f(x: fp.Real, y: fp.Real) -> fp.Real:
     t[0] = y + 1
     u = cube[1]
     return row[0] + t[1] + u[0][0]
-''', 'f', ['real', 'real'], ['analysis', 'alias', 'no_ref'])
+''', 'f', ['real', 'real'], ['analysis', 'alias', 'no_ref', 'no_format'])      # no_format: writes through an alias (the C14 known finding) are not repeated here
+
+
+prog('mono_declared_ctx_same_format', '''
+@fp.fpy(ctx=C3UP)
+def f(x: fp.Real, y: fp.Real) -> fp.Real:
+    return x * y + x
+''', 'f', ['real', 'real'], ['context', 'no_ref', 'no_analysis'])
+
+prog('lift_ctx_name_clash', '''
+@fp.fpy
+def f(x: fp.Real, y: fp.Real) -> fp.Real:
+    ctx = C3UP if x > y else C3DN
+    with ctx:
+        a = x * y
+    with fp.MPFloatContext(2):
+        b = a + x
+    with ctx:
+        c = b * y
+    return c
+''', 'f', ['real', 'real'], ['lift_context', 'context', 'no_ref', 'no_analysis'])
+
+
+prog('fmt_while_carried_copies', '''
+@fp.fpy
+def f(n: fp.Real, x: fp.Real) -> fp.Real:
+    with fp.REAL:
+        a = 0
+        b = 0
+        c = 0
+        d = 0
+        e = 1
+        i = 0
+        while i < n:
+            a = b
+            b = c
+            c = d
+            d = e
+            e = e + e
+            i = i + 0.5
+        r = a + x
+    return r
+''', 'f', ['real', 'real'], ['analysis', 'loop', 'no_ref'])
+
+prog('fmt_and_refinement_else', '''
+@fp.fpy
+def f(x: fp.Real, y: fp.Real) -> tuple[fp.Real, fp.Real]:
+    if x > 2 and y > 2:
+        r = y
+    else:
+        r = x
+    if not (x < -2 and y > 1):
+        s = x
+    else:
+        s = y
+    return (r, s)
+''', 'f', ['real', 'real'], ['analysis', 'branch', 'no_ref'])
 
 
 def namespace():
